@@ -360,7 +360,9 @@ def _lines_est(cell, colw_in):
     return max(1, int(_width_in(cell.text, 1, 9) / colw_in) + 1)
 
 
-def observe(rtf_text: str, c=None):
+def observe(rtf_text: str, c=None, tagged=True):
+    # tagged=False: the cells hold arbitrary texts (a random text may happen to look like a row tag): rows are
+    # identified by their position only
     from rtfreader import parse, row_summary
     doc = parse(rtf_text)
     ev = []
@@ -426,7 +428,7 @@ def observe(rtf_text: str, c=None):
                         wt = max(wt, _lines_lb(cell, cw))
                         est = max(est, _lines_est(cell, cw))
                     tag = 0
-                    for t in texts:
+                    for t in (texts if tagged else []):
                         m = _RE_TAG.match(t)
                         if m:
                             tag = int(m.group(1))
@@ -479,14 +481,14 @@ def run_one(sc):
     except Exception as ex:
         rec["outcome"] = "encode:" + type(ex).__name__ + ":" + str(ex)[:200]
         return rec
-    ev, obs = observe(text, c)
+    ev, obs = observe(text, c, tagged=o["texts"] is None)
     extras = expected_extras(c, o, info)
     extras["obs"] = {k: obs[k] for k in ("geom", "landscape", "nheader", "nfooter")}
     prefixes = []
     if o["prefixes"]:
         for m in range(1, c["n"]):
             d2, _ = build(c, o, nrows=m)
-            ev2, _ = observe(d2.rtf_encode(), c)
+            ev2, _ = observe(d2.rtf_encode(), c, tagged=o["texts"] is None)
             pv = {}
             for e in ev2:
                 if e["k"] == "data":
